@@ -6,7 +6,7 @@
 EXTENDS SyncSessionCore
 
 CONSTANTS MaxFrames
-Frames == {"InitOk", "InitItems", "InitUnknown", "InitBadId", "SyncValid", "SyncArb", "SyncBadId", "Abort", "Garbage", "Oversize", "Partial", "Eof"}
+Frames == {"InitOk", "InitItems", "InitUnknown", "InitBadId", "SyncValid", "SyncArb", "SyncBadId", "Abort", "Garbage", "Oversize", "Partial", "PartialPrefix", "Eof"}
 Conds == {"ok", "closed", "syncoff", "down"}
 
 VARIABLES st, cond, accept, n, result
